@@ -48,6 +48,8 @@ class Stats:
         if out.status == "skipped":
             self.bump("skipped_msgs", _short(out.message))
             return False
+        for t in cs.spec.tags:
+            self.bump("strata_compiled", t)
         ex = out.ex
         if ex is not None:
             self.counters["loops_entered"] += sum(1 for l in ex.loops
